@@ -8,6 +8,7 @@ import (
 
 	"pgregory.net/rapid"
 	"verif/harness/gen"
+	"verif/harness/lexref"
 	"verif/harness/rep"
 )
 
@@ -28,6 +29,9 @@ var c18Args = []struct{ s, class string }{
 	{"%d", "percent"}, {"100%", "percent"}, {"50%%", "percent"}, {"%s%s", "percent"}, {"a%20b", "percent"}, {"^", "caret"}, {"a^b", "caret"}, {"@x", "at"}, {"+", "plus"}, {",", "comma"}, {":", "colon"}, {"a,b:c+d", "punct"},
 }
 
+// reserved words of the shell that are ordinary identifiers in TypeShell
+var c18ShellWords = []string{"time", "until", "select", "function", "coproc", "then", "done", "fi", "in", "do", "elif", "esac", "while"}
+
 type c18Call struct {
 	probe   int
 	literal string // "": identifier form; else path literal
@@ -38,7 +42,7 @@ type c18Call struct {
 
 func TestC18(t *testing.T) {
 	r, e := start(t, "C18",
-		"programs calling probe executables: argument lists of 0-5 strings over the C08 classes (empty, blanks, glob, ~, {a,b}, ; & | > < # - quotes, parentheses, !, =, %, ^, @, tab, embedded newline, $, $(cmd), backquote, double quote, backslash), each given as literal, variable, concatenation, function result or run-time input; pipelines of 1-3 probes; exit statuses 0-255; calls as statements (output must reach stdout) and as o, e, c := / var o, e, c = / o, e, c = captures (output must not reach stdout); program names as identifiers (found on PATH) and as interpreted/raw string literal paths, also paths containing a blank, '*', ';' or a leading dash in a directory name. Oracle: each probe's argv log equals the intended argument list exactly; stdout composition proves the pipe order; captured output and status are exact; no stray file appears. Non-trivial = two or more arguments of different non-neutral classes, or a pipeline of >= 2 with a non-zero status; distinct by program + stdin.",
+		"programs calling probe executables: argument lists of 0-5 strings over the C08 classes (empty, blanks, glob, ~, {a,b}, ; & | > < # - quotes, parentheses, !, =, %, ^, @, tab, embedded newline, $, $(cmd), backquote, double quote, backslash), each given as literal, variable, concatenation, function result or run-time input; pipelines of 1-3 probes; exit statuses 0-255; calls as statements (output must reach stdout) and as o, e, c := / var o, e, c = / o, e, c = captures (output must not reach stdout); program names as identifiers (found on PATH; a quarter of them spelled like reserved words of the shell: time, until, select, function, done, fi, in ...) and as interpreted/raw string literal paths, also paths containing a blank, '*', ';' or a leading dash in a directory name. Oracle: each probe's argv log equals the intended argument list exactly; stdout composition proves the pipe order; captured output and status are exact; no stray file appears. Non-trivial = two or more arguments of different non-neutral classes, or a pipeline of >= 2 with a non-zero status; distinct by program + stdin.",
 		[]string{"arguments containing $, backquote, double quote or backslash are supplied through input() or variables read at run time (as source literals they fall under the listed C08 finding)", "probe output never ends in an empty line (capture removes trailing newlines by definition)", "Bash target only"})
 	defer r.Flush()
 	_ = e
@@ -51,6 +55,7 @@ func TestC18(t *testing.T) {
 		expLogs := map[string]string{}
 		expOut := ""
 		nprobe := 0
+		usedWord := map[string]bool{}
 		inputs := map[int]string{}
 		vars := map[int]string{}
 		classes := map[string]bool{}
@@ -107,6 +112,15 @@ func TestC18(t *testing.T) {
 			for k := 0; k < plen; k++ {
 				nprobe++
 				name := fmt.Sprintf("p%d", nprobe)
+				// a program may be called like a word the shell reserves for itself (a command name all the same)
+				if gen.Uniform(0, 3).Draw(t, "shell-word-name") == 0 {
+					w := c18ShellWords[gen.Uniform(0, len(c18ShellWords)-1).Draw(t, "shell-word")]
+					if _, kw := lexref.Keywords[w]; !kw && !usedWord[w] {
+						usedWord[w] = true
+						name = w
+						r.Class("program-named-like-shell-word")
+					}
+				}
 				status := []int{0, 0, 0, 1, 2, 7, 42, 127, 255}[gen.Uniform(0, 8).Draw(t, "status")]
 				statuses[nprobe] = status
 				lastStatus = status
